@@ -125,7 +125,58 @@ def main():
                 break
         if wiring != "ok":
             break
-    items = ["ok", "pkg=" + pkg, "wiring=" + wiring] + ["class %s %s" % c for c in sorted(classes)] + ["type %s=%s" % t for t in sorted(types)]
+    # the class body: one property per own attribute; what each setter does, probed on an instance
+    from stepcode.SimpleDataTypes import INTEGER, REAL, STRING, BINARY
+    battery = [("I", lambda: INTEGER(1)), ("R", lambda: REAL(1.5)), ("S", lambda: STRING("x")), ("B", lambda: BINARY("01")),
+               ("T", lambda: True)]
+    props = []
+    for name, obj in vars(M).items():
+        if not (inspect.isclass(obj) and getattr(obj, "__module__", None) == mod and issubclass(obj, BaseEntityClass)
+                and obj.__name__ == name):
+            continue
+        own = [(k, v) for k, v in vars(obj).items() if isinstance(v, property)]
+        desc = []
+        try:
+            n_par = len(inspect.signature(obj.__init__).parameters) - 1 if "__init__" in vars(obj) or obj.__bases__[0] is not BaseEntityClass else 0
+            inst = obj(*[object() for _ in range(n_par)])
+        except Exception as e:
+            props.append((name, "cannot-instantiate-" + type(e).__name__)); continue
+        for k, v in own:
+            try:
+                setattr(inst, k, object())
+                acc = "any"
+            except TypeError:
+                acc = "settable"
+            except AssertionError as e:
+                acc = "d" if "DERIVED" in str(e) else "i" if "INVERSE" in str(e) else "assert"
+            except Exception as e:
+                acc = "raises-" + type(e).__name__
+            got = "-"
+            if acc == "settable":
+                try:
+                    setattr(inst, k, None)
+                    acc = "o"
+                except AssertionError:
+                    acc = "m"
+                except Exception as e:
+                    acc = "none-raises-" + type(e).__name__
+                got = ""
+                for letter, mk in battery:
+                    try:
+                        val = mk()
+                        setattr(inst, k, val)
+                        if getattr(inst, k) == val:
+                            got += letter
+                    except Exception:
+                        pass
+                got = got or "-"
+            desc.append("%s:%s:%s" % (k, acc, got))
+        props.append((name, ",".join(desc) or "-"))
+    order = [name for name, obj in vars(M).items() if inspect.isclass(obj) and getattr(obj, "__module__", None) == mod
+             and issubclass(obj, BaseEntityClass) and obj.__name__ == name]
+    # in the order of the `class` statements in the file (a name like `sys` keeps an older slot in the module dict)
+    order.sort(key=lambda n: text.find("\nclass %s(" % n))
+    items = ["ok", "pkg=" + pkg, "wiring=" + wiring, "order=" + (",".join(order) or "-")] + ["props %s=%s" % p_ for p_ in sorted(props)] + ["class %s %s" % c for c in sorted(classes)] + ["type %s=%s" % t for t in sorted(types)]
     print(" | ".join(items))
 
 
